@@ -18,16 +18,18 @@ LEVEL = "exploration"
 
 NS = [0, 1, 2, 3, 7, 8, 9, 1460, 16384]
 KS = [1, 2, 3, 4, 9]
+NS3 = [0, 1, 3, 8, 1460]
+KS3 = [1, 2, 4]
 
 
 def describe(tier):
     return {
         "rule": "G: all (n,k) with n in 0..40, k in 1..8, both directions, IPv4/IPv6; S: all sequences of (direction, n, k) records "
-                f"to depth {2 if tier == 'quick' else 3} over n in {NS} x k in {KS}; P: product of option sets (-m absent/bare/"
+                f"to depth 2 over n in {NS} x k in {KS}" + ("" if tier == "quick" else f" and to depth 3 over n in {NS3} x k in {KS3}") + "; P: product of option sets (-m absent/bare/"
                 "pairs, -a, -c, -p, -g) x 12 capture kinds (incl. reordered and retransmitted TLS segments). non-trivial: an output holding >= 1 TCP conversation or UDP datagram that "
                 "passed every structural test; distinct = distinct scenario",
         "exhaustive": True,
-        "bounds": {"grid": "n 0..40 x k 1..8", "sequence_depth": 2 if tier == "quick" else 3},
+        "bounds": {"grid": "n 0..40 x k 1..8", "sequence_depth": "2 (full alphabet)" if tier == "quick" else "2 (full alphabet), 3 (reduced alphabet)"},
         "min_nontrivial": 500,
         "chunksize": 2,
         "assumptions": [
@@ -42,13 +44,17 @@ def cases(tier, seed):
     for v6 in (False, True):
         for k in range(1, 9):
             yield {"layer": "G", "k": k, "v6": v6}
-    depth = 2 if tier == "quick" else 3
     alpha = [(d, n, k) for d in ("c", "s") for n in NS for k in KS]
     for v6 in (False, True):
         for i in range(len(alpha)):
             if v6 and tier == "quick" and i % 3:
                 continue
-            yield {"layer": "S", "first": i, "depth": depth, "v6": v6}
+            yield {"layer": "S", "first": i, "depth": 2, "v6": v6, "alpha": "full"}
+    if tier == "thorough":
+        small = [(d, n, k) for d in ("c", "s") for n in NS3 for k in KS3]
+        for v6 in (False, True):
+            for i in range(len(small)):
+                yield {"layer": "S", "first": i, "depth": 3, "v6": v6, "alpha": "small"}
     for ci in range(len(P_CAPTURES)):
         yield {"layer": "P", "capture": ci, "seed": seed}
 
@@ -224,7 +230,8 @@ def run_case(case):
                     nontriv.append(f"G{nbytes}/{k}/{d}/{v6}")
         sample = {"layer": "G", "k": k, "v6": v6, "n": "0..40"}
     elif case["layer"] == "S":
-        alpha = [(d, nn, k) for d in ("c", "s") for nn in NS for k in KS]
+        alpha = [(d, nn, k) for d in ("c", "s") for nn in (NS if case.get("alpha", "full") == "full" else NS3)
+                 for k in (KS if case.get("alpha", "full") == "full" else KS3)]
         v6 = case["v6"]
 
         def rec(seq):
